@@ -390,6 +390,10 @@ func (packet *Packet) getServerCapabilities() uint32 {
 	// https://dev.mysql.com/doc/internals/en/connection-phase-packets.html#idm140437490034448
 	endOfServerVersion := bytes.Index(packet.data[1:], []byte{0}) + 2 // 1 first byte of protocol version and 1 to point to next byte
 	// 4 bytes connection string + 8 bytes of auth plugin + 1 byte filler
+	if len(packet.data) < endOfServerVersion+13+2 {
+		logrus.Debug("packet hasn't DB capabilities")
+		return 0
+	}
 	rawCapabilities := packet.data[endOfServerVersion+13 : endOfServerVersion+13+2]
 	return uint32(binary.LittleEndian.Uint16(rawCapabilities))
 }
@@ -426,6 +430,10 @@ func (packet *Packet) getClientExtendedMariaDBCapabilities() uint32 {
 
 func (packet *Packet) getClientCapabilities() uint32 {
 	// https://dev.mysql.com/doc/internals/en/connection-phase-packets.html#idm140437489940880
+	if len(packet.data) < 4 {
+		logrus.Debug("packet hasn't Client capabilities")
+		return 0
+	}
 	return binary.LittleEndian.Uint32(packet.data[:4])
 }
 
